@@ -140,7 +140,7 @@ func StripExpired(st sugardb.VerifState, nowMs int64, textOnly bool) map[string]
 	m := map[string]string{}
 	for db, data := range st.DBs {
 		for k, e := range data {
-			if e.ExpireAt != 0 && e.ExpireAt <= nowMs {
+			if e.Expired || (e.ExpireAt != 0 && e.ExpireAt <= nowMs) {
 				continue
 			}
 			m[strconv.Itoa(db)+"/"+k] = RenderEntry(e, textOnly)
